@@ -16,7 +16,7 @@ from ..interp import Interp, Hooks
 from ..templates import TemplateHooks, make_hole, to_term, show
 from ..galg import GraphHooks
 from .. import oracle
-from ..report import Finding, RuleResult, floor, Attempts
+from ..report import Finding, RuleResult, floor, Attempts, adopt
 from . import c19
 
 PROP = 'C03'
@@ -471,4 +471,14 @@ def run(prog, tier, seed):
             'decided: exactness of the answers (they inherit C01/C02).')
     assumptions = ['C01 / C02 for the delegated checkers',
                    'fresh names do not collide (R-CTLS-3)']
-    return T.results(r1, r2, r3, r4, r5), expl, assumptions, T.extra()
+    # the checkers the CTL* procedure delegates to, and what they rely on:
+    # necessary conditions of the exactness of CTL* answers too
+    from . import c01, c02, c05, c07, c12
+    dep = adopt(
+        c01.own_rules(prog, tier, T) + c02.own_rules(prog, tier, T) +
+        T.results(T(c12.rule_scc, prog), T(c12.rule_scc6, prog),
+                  T(c05.rule_rw3, prog),
+                  T(c07.rule_pure4, prog, T(c07.effects, prog))),
+        PROP, 'relied on by the CTL* procedure')
+    return T.results(r1, r2, r3, r4, r5) + dep, expl, assumptions, \
+        T.extra()
